@@ -12,7 +12,10 @@ call j with a key of the same length by
     (key_k == key_j and block_k == block_j)  <=>  out_k == out_j
 
 i.e. E is a function of (key, block) and no two different (key, block) pairs
-give the same ciphertext - the collision-free ideal block cipher.  The mode of
+give the same ciphertext - the collision-free ideal block cipher.  Key
+lengths: a 24-byte key K1K2K3 with K3 == K1 is the 16-byte key K1K2 (as in
+real triple DES; decided by one fork), any other 24-byte key is different
+from every 16-byte key (results constrained to differ).  The mode of
 operation (CBC chaining, ECB) is done here in Python on top of E, the way
 pyDes does it.  In native replay the enc<k> values are read from the recorded
 assignment through the same sx.bytes names, and the same constraints are
@@ -54,6 +57,14 @@ class IdealCipher(object):
         sx = self.sx
         key, blk = list(key), list(blk)
         assert len(blk) == 8 and len(key) in (16, 24)
+        if len(key) == 24:
+            # two-key triple DES K1,K2 is three-key triple DES K1,K2,K1: one
+            # key space.  A 24-byte key whose third part repeats the first IS
+            # the 16-byte key (one fork); any other 24-byte key differs from
+            # every 16-byte key
+            if sx.truth(sx.eq(sx.mkbytes(key[16:24], False),
+                              sx.mkbytes(key[0:8], False))):
+                key = key[0:16]
         k = len(self.calls)
         args = key + blk
         for aj, oj in self.calls:
@@ -71,6 +82,8 @@ class IdealCipher(object):
         conds = []
         for aj, oj in self.calls:
             if len(aj) != len(args):
+                # a two-key and a genuine three-key key: different keys
+                conds.append(sx.neg(sx.eq(o, sx.mkbytes(oj, False))))
                 continue
             same_in = sx.eq(a, sx.mkbytes(aj, False))
             same_out = sx.eq(o, sx.mkbytes(oj, False))
